@@ -232,6 +232,8 @@ def check_fill(ctx, da=None, sizes=None, ths=None, method=None, mn=None):
     dims, labs, lines = lines_of(da, sizes)
     m = mcall(ctx, "c17_fill", enc_list([enc_nums([t / 2.0 for t in ths]), enc_lines(lines), enc_str(method), str(mn)]))
     ctx.case(desc, nontrivial=impl[0] == "ok")
+    if da.sizes[TD] >= 3 and len(ctx.samples) >= 3:
+        ctx.sample(desc, limit=5)
     ctx.count("fill:" + method)
     should_raise = (method not in FILLS) or any((not np.isnan(v)) and not (0 <= v <= 1) for l in lines for v in l) or \
         (mn < 2 if method == "linear" else mn < 1)
@@ -506,6 +508,8 @@ def check_adjust(ctx):
         cases.append(enc_list([enc_nums(l), enc_num(o)]))
     m = mcall(ctx, "c17_adjust", enc_list([enc_nums([t / 2.0 for t in ths]), enc_list(cases), enc_nums(add or []), enc_str(ffm), enc_str(im), enc_num(tol)]))
     flagged = [d > Fraction(tol) for d in decs]
+    if any(flagged):
+        ctx.sample(desc, limit=3)
     ctx.case(desc, nontrivial=impl[0] == "ok" and any(flagged))
     ctx.count("adjust:" + ("some_decreasing" if any(flagged) else "none_decreasing"))
     if impl[0] == "err":
@@ -661,4 +665,3 @@ def run(ctx):
         check_small_tools(ctx)
         check_adjust(ctx)
         check_adjust(ctx)
-    ctx.sample({"note": "see generator_distribution; failing cases are written to the replay file"})
